@@ -2,7 +2,7 @@
 from ..bij import ob_roundtrip  # noqa: F401  (resolved by name in workers)
 
 QUICK = ["affine2", "affine22", "affine0", "affine_bcast", "affine_bcast2", "loc", "scale", "tri2l", "tri2u", "addcond", "exp", "expvec", "softplus", "tanh",
-         "leakytanh", "rqs1", "rqs1b", "planar2", "perm3", "perm22", "flip3", "identity"]
+         "leakytanh", "rqs1", "rqs1b", "planar2", "planar2s", "perm3", "perm22", "flip3", "identity"]
 THOROUGH = QUICK + ["tri3l", "tri3u", "rqs2", "rqs2b", "rqs3", "planar1", "planar2c", "flip22"]
 
 META = dict(
